@@ -523,6 +523,15 @@ func init() {
 				}
 			}
 		}
+		// several extensions, and every root has leaves of each kind (what a leaf is must not depend on what another
+		// worker has just decided for another leaf)
+		{
+			d := docT{"exts-mixed", []string{"- a\n  - x.b\n  - y.d\n  - z\n", "- c\n  - p.d\n  - q.b\n", "- e\n  - r.d\n  - s.b\n  - t.d\n"}, []int{4, 3, 4}, ""}
+			for _, op := range []string{"mkdir", "out-dry"} {
+				add(d, op, k2, w2, func(s *c10Spec) { s.exts = []string{".b", ".d"} })
+				add(d, op, k1, w3, func(s *c10Spec) { s.name += "/w3"; s.exts = []string{".d", ".zz", ".b"} })
+			}
+		}
 		// one worker per stage: every block passes through the same worker (state kept between blocks shows here)
 		w1only := map[string]int{"*": 1}
 		w1gen := map[string]int{"workerGenerateNum": 1, "workerGrowNum": 1, "*": 2}
